@@ -292,6 +292,11 @@ def mp_cases(M):
     out.append([('t', None, b'z' * 3), ('f', 'n.bin', b'q' * (4 * M))])
     out.append([('f', 'n.bin', b'q' * (4 * M)), ('t', None, b'z' * (M + 2))])
     out.append([('t', None, b'z' * (M // 2 + 2)), ('u', None, b'w' * (M // 2 + 2))])
+    # leading field(s) that use up the in-memory budget exactly (or within one byte), then a large text field
+    for d in (-1, 0, 1):
+        out.append([('t', None, b'z' * (M - hdr_t + d)), ('u', None, b'w' * (3 * M))])
+    half = (M - 2 * hdr_t) // 2
+    out.append([('t', None, b'z' * half), ('u', None, b'y' * (M - 2 * hdr_t - half)), ('v', None, b'w' * (3 * M))])
     return out, hdr_t, hdr_f
 
 
